@@ -129,7 +129,7 @@ CONTRACT += '''
 //@   ensures normal ==> (forall q {K} :: dom(m.data, q) <==> (old(dom(m.data, q)) && app(fn, q, old(m.data[q]))))
 //@   ensures normal ==> (forall q {K} :: dom(m.data, q) ==> m.data[q] == old(m.data[q]))
 //@   ensures normal ==> (forall a, b :: 0 <= a && a < b && b < len(m.order) ==> (exists a2, b2 :: 0 <= a2 && a2 < b2 && b2 < old(len(m.order)) && old(m.order[a2]) == m.order[a] && old(m.order[b2]) == m.order[b]))
-//@   ensures panics ==> (exists p :: 0 <= p && p < old(len(m.order)) && apppanics(fn, old(m.order[p]), old(m.data[m.order[p]])))
+//@   ensures panics ==> (exists p :: 0 <= p && p < old(len(m.order)) && apppanics(fn, old(m.order[p]), old(m.data[m.order[p]])) && pv == apppv(fn, old(m.order[p]), old(m.data[m.order[p]])))
 //@   ensures panics ==> len(m.order) == old(len(m.order)) && (forall i :: 0 <= i && i < len(m.order) ==> m.order[i] == old(m.order[i])) && (forall q {K} :: dom(m.data, q) == old(dom(m.data, q)) && m.data[q] == old(m.data[q]))
 //@   loop 0 invariant -1 <= rangeindex && rangeindex < len(m.order) && m.mx.held == 2 && wf{M}(m)
 //@   loop 0 invariant m.order == old(m.order) && m.order.$arr <= old(alloc) && (forall i :: 0 <= i && i < len(m.order) ==> m.order[i] == old(m.order[i]))
